@@ -265,6 +265,98 @@ class C04(Prop):
                             'back_auto': 'auto-detection settles on a protocol that decodes the message differently'}[which]
         return None
 
+    def extra_checks(self, ctx):
+        """auto-detection SETTLES: after its first message an auto-detecting connection is a connection of the detected
+        protocol - later incoming messages are read, and outgoing messages written, exactly as a connection constructed
+        with that protocol reads and writes them"""
+        from aiorpcx import jsonrpc
+        from harness.core import Failure
+        firsts = [b'{"result":[1,"x"],"error":null,"id":0}', b'{"jsonrpc":"2.0","result":4,"id":0}', b'{"result":4,"id":0}',
+                  b'{"jsonrpc":"2.0","method":"m","params":[1],"id":7}', b'{"method":"m","params":[1],"id":7}',
+                  b'{"method":"m","params":[1],"id":null}', b'{"jsonrpc":"1.0","method":"m","params":[],"id":3}',
+                  b'[{"jsonrpc":"2.0","method":"m","id":1},{"jsonrpc":"2.0","method":"n"}]', b'{"error":{"code":1,"message":"e"},"id":0}']
+        later = [b'{"jsonrpc":"2.0","result":4,"id":1}', b'{"result":4,"error":null,"id":1}', b'{"result":4,"id":1}',
+                 b'{"jsonrpc":"2.0","method":"q","params":{"a":1},"id":9}', b'{"method":"q","params":[2],"id":9}',
+                 b'{"method":"q","id":9}', b'[{"jsonrpc":"2.0","method":"q","id":5}]', b'[{"method":"q","params":[],"id":5}]',
+                 b'{"jsonrpc":"2.0","method":"q"}', b'{"method":"q","params":[],"id":null}', b'{"error":null,"result":null,"id":1}']
+
+        def script(conn, first, follow):
+            log = []
+
+            def step(f):
+                try:
+                    log.append(f())
+                except jsonrpc.ProtocolError as e:
+                    log.append(['ProtocolError', e.code, None if e.error_message is None else bytes(e.error_message).decode()])
+                except Exception as e:
+                    log.append(['escaped', type(e).__name__])
+
+            def rx(m):
+                items = conn.receive_message(m)
+                out = []
+                for it in items:
+                    if isinstance(it, jsonrpc.Request):
+                        r = it.send_result('ok')
+                        out.append(['request', it.method, repr(it.args), None if r is None else bytes(r).decode()])
+                    elif isinstance(it, jsonrpc.Notification):
+                        out.append(['notification', it.method, repr(it.args)])
+                    else:
+                        out.append(['other', type(it).__name__])
+                return ['items', out]
+            futs = []
+
+            def tx_request():
+                m, f = conn.send_request(jsonrpc.Request('p', [1]))
+                futs.append(f)
+                return ['sent', bytes(m).decode()]
+            step(tx_request)
+            step(tx_request)
+            step(lambda: rx(first))
+            for m in follow:
+                step(lambda m=m: rx(m))
+            step(tx_request)
+            step(lambda: ['sent', bytes(conn.send_notification(jsonrpc.Notification('n', [1]))).decode()])
+            step(lambda: ['sent', bytes(conn.send_notification(jsonrpc.Notification('n', {'a': 1}))).decode()])
+
+            def tx_batch():
+                m, f = conn.send_batch(jsonrpc.Batch([jsonrpc.Request('b', [1]), jsonrpc.Notification('c', [])]))
+                return ['sent', bytes(m).decode()]
+            step(tx_batch)
+            log.append(['futures', [('pending' if not f.done() else 'cancelled' if f.cancelled() else repr(f.exception() or f.result())) for f in futs]])
+            return log
+        import asyncio
+        out, n = [], 0
+        names = {jsonrpc.JSONRPCv1: 'v1', jsonrpc.JSONRPCv2: 'v2', jsonrpc.JSONRPCLoose: 'loose'}
+        loop = asyncio.new_event_loop()
+        asyncio.set_event_loop(loop)
+        try:
+            for first in firsts:
+                try:
+                    det = jsonrpc.JSONRPCAutoDetect.detect_protocol(first)
+                except Exception:
+                    continue
+                for k in range(len(later)):
+                    follow = [later[k], later[(k + 3) % len(later)]]
+                    a = script(jsonrpc.JSONRPCConnection(jsonrpc.JSONRPCAutoDetect), first, follow)
+                    b = script(jsonrpc.JSONRPCConnection(det), first, follow)
+                    n += 1
+                    a, b = a[2:], b[2:]        # what is sent before anything was received is 2.0 by definition
+                    if a != b:
+                        i = next(i for i, (x, y) in enumerate(zip(a, b)) if x != y)
+                        out.append(Failure({'kind': 'settle', 'first': first.decode(), 'then': [m.decode() for m in follow], 'detected': names.get(det, str(det))},
+                                           {'auto_detecting_connection': a[i], 'connection_of_detected_protocol': b[i], 'step': i},
+                                           'auto-detection does not settle: after its first message the connection does not read / write '
+                                           'later messages as a connection of the detected protocol does'))
+                        break
+                if len(out) >= 2:
+                    break
+        finally:
+            loop.close()
+            asyncio.set_event_loop(None)
+        ctx['extra_evals'] += n
+        ctx['notes'].append(f'auto-detecting connection vs connection of the detected protocol over short scripts: {n}')
+        return out
+
     def nontrivial(self, case, obs):
         s = json.dumps(case)
         return '__str__' in s or '[[' in s or '__dict__' in s or case['kind'] == 'decode'
